@@ -105,6 +105,17 @@ def prepare_state(case, r, full=True, m0=None):
         mps.compress(temp_m_trunc=m0)
         mps.ensure_right_canonical()
         mps.scale(1.0 / mps.mp_norm, inplace=True)
+    if full:
+        # "sufficient bond dimension" is established, not assumed: every bond must reach the Schmidt rank of a generic vector
+        # of the sector (Mps.random drops reachable blocks when quantum numbers of both signs occur)
+        rng = np.random.default_rng(case["rng"])
+        mask = sector_mask(spec, q)
+        g = np.zeros(mask.shape[0])
+        g[mask] = rng.standard_normal(int(mask.sum()))
+        ranks = evo.schmidt_ranks(g, gen.pdims(spec), rel=1e-10)
+        if any(b < rk for b, rk in zip(mps.bond_dims[1:-1], ranks)):
+            r.rejected = "start state does not have the full bond dimension of its sector"
+            return None, None, None, None
     if case["gauge"] == 1:
         mps.ensure_left_canonical()
     elif case["gauge"] == 2:
